@@ -14,6 +14,8 @@
   An error return of the Go code is `none` (the transcript state after an error is not compared).
 -/
 import GoIpa.Tie.Loops
+import GoIpa.Model.Multiproof
+import GoIpa.Props.C02Mp
 import Mathlib.Algebra.Module.Defs
 import Mathlib.Algebra.Module.Basic
 import Mathlib.Tactic.Abel
@@ -287,7 +289,7 @@ theorem checkIPAProof_eq (cfg : IpaCfg K G) (ms : List G → List K → Option G
   have hfl : fs.length = cfg.srs.length := by simp [hfs]
   rw [hms, if_pos hfl.symm]
   simp only
-  rw [innerProd_eq (bVector cfg z) fs (by rw [hb, hfl])]
+  rw [Tie.Loops.innerProd_eq (bVector cfg z) fs (by rw [hb, hfl])]
   simp only [Bool.decide_eq_true]
 
 /-! ### `CreateIPAProof` -/
@@ -376,7 +378,7 @@ theorem goBody_step (bvec : K → List K) (ms : List G → List K → Option G) 
   have l5 : (a.take m).length = (a.drop m).length := by simp [List.length_take, List.length_drop, ha, hm]; omega
   have l6 : (b.take m).length = (b.drop m).length := by simp [List.length_take, List.length_drop, hb, hm]; omega
   have l7 : (g.take m).length = (g.drop m).length := by simp [List.length_take, List.length_drop, hg, hm]; omega
-  rw [innerProd_eq _ _ l1, innerProd_eq _ _ l2]
+  rw [Tie.Loops.innerProd_eq _ _ l1, Tie.Loops.innerProd_eq _ _ l2]
   simp only
   rw [commit_eq enc _ ms hms, if_pos l3]
   simp only
@@ -520,7 +522,7 @@ theorem createIPAProof_eq (cfg : IpaCfg K G) (ms : List G → List K → Option 
     (hb : (bVector cfg z).length = 2 ^ cfg.rounds) :
     Gen.Loops.createIPAProof enc (bVector cfg) ms tr cfg.Q cfg.srs (cfg.rounds : Int) C a z
       = ofModelP (ipaProve enc cfg tr C a z) := by
-  rw [createIPAProof_unfold, innerProd_eq a _ (by rw [ha, hb])]
+  rw [createIPAProof_unfold, Tie.Loops.innerProd_eq a _ (by rw [ha, hb])]
   simp only
   unfold ipaProve ofModelP
   simp only
@@ -567,5 +569,213 @@ theorem createIPAProof_eq (cfg : IpaCfg K G) (ms : List G → List K → Option 
       rw [e8 j, if_pos (by omega)]; simp
     rw [hL, hRr]
     rfl
+
+/-! ### `CheckMultiProof` -/
+
+theorem zip3_eq_range_map {α β γ : Type} (a : List α) (b : List β) (c : List γ)
+    (da : α) (db : β) (dc : γ) (n : Nat) (ha : a.length = n) (hb : b.length = n) (hc : c.length = n) :
+    List.zip a (List.zip b c) = (List.range n).map (fun k => (a.getD k da, b.getD k db, c.getD k dc)) := by
+  apply List.ext_getElem (by simp [ha, hb, hc])
+  intro j h1 h2
+  simp only [List.length_zip, ha, hb, hc, Nat.min_self] at h1
+  simp [List.getD_eq_getElem?_getD, ha ▸ h1, hb ▸ h1, hc ▸ h1]
+
+theorem getD_map_cast (zs : List Nat) (i : Nat) : (zs.map (fun (z : Nat) => (z : Int))).getD i 0 = ((zs.getD i 0 : Nat) : Int) := by
+  rw [List.getD_eq_getElem?_getD, List.getD_eq_getElem?_getD, List.getElem?_map]
+  cases zs[i]? <;> simp
+
+theorem domainToFr_eq (n : Nat) : Gen.Loops.domainToFr (K := K) (n : Int) = ((n : Nat) : K) := by
+  unfold Gen.Loops.domainToFr; simp
+
+theorem foldl_set_length {α β : Type} (l : List β) (f : List α → β → Nat) (g : List α → β → α) (init : List α) :
+    (l.foldl (fun ge e => ge.set (f ge e) (g ge e)) init).length = init.length := by
+  induction l generalizing init with
+  | nil => rfl
+  | cons x l ih => rw [List.foldl_cons, ih]; simp
+
+/-- a loop that fills two lists at once -/
+theorem foldl_two_lists {α β : Type} (n : Nat) (da : α) (db : β) (f : Nat → α) (g : Nat → β) :
+    (List.range n).foldl (fun (st : List α × List β) (k : Nat) => (st.1.set k (f k), st.2.set k (g k)))
+      (List.replicate n da, List.replicate n db) = ((List.range n).map f, (List.range n).map g) := by
+  have inv := foldl_range_inv
+    (fun k (st : List α × List β) => st.1.length = n ∧ st.2.length = n ∧
+      (∀ j, j < n → st.1.getD j da = if j < k then f j else da) ∧ (∀ j, j < n → st.2.getD j db = if j < k then g j else db))
+    (fun (st : List α × List β) (k : Nat) => (st.1.set k (f k), st.2.set k (g k)))
+    (List.replicate n da, List.replicate n db) n
+    ⟨List.length_replicate, List.length_replicate, fun j hj => by rw [getD_replicate _ _ _ _ hj]; simp,
+      fun j hj => by rw [getD_replicate _ _ _ _ hj]; simp⟩
+    (by
+      rintro k ⟨a, b⟩ hk ⟨h1, h2, h3, h4⟩
+      simp only at h1 h2 h3 h4 ⊢
+      refine ⟨by simp [h1], by simp [h2], ?_, ?_⟩
+      · intro j hj
+        rw [getD_set]
+        by_cases hkj : k = j
+        · subst hkj; simp [h1, hk]
+        · have : ¬ (k = j ∧ k < a.length) := fun hh => hkj hh.1
+          rw [if_neg this, h3 j hj]
+          have hiff : (j < k + 1) ↔ (j < k) := by omega
+          simp only [hiff]
+      · intro j hj
+        rw [getD_set]
+        by_cases hkj : k = j
+        · subst hkj; simp [h2, hk]
+        · have : ¬ (k = j ∧ k < b.length) := fun hh => hkj hh.1
+          rw [if_neg this, h4 j hj]
+          have hiff : (j < k + 1) ↔ (j < k) := by omega
+          simp only [hiff])
+  obtain ⟨h1, h2, h3, h4⟩ := inv
+  rw [Prod.ext_iff]
+  constructor
+  · apply ext_getD _ _ da (by simp [h1])
+    intro j hj
+    rw [h1] at hj
+    rw [h3 j hj, if_pos hj, getD_map_range _ _ _ _ hj]
+  · apply ext_getD _ _ db (by simp [h2])
+    intro j hj
+    rw [h2] at hj
+    rw [h4 j hj, if_pos hj, getD_map_range _ _ _ _ hj]
+
+theorem ofModel_bind (r : Except VErr Bool × Tr) :
+    (match ofModel r with
+     | none => none
+     | some (ok, transcript) => some (ok, transcript)) = ofModel r := by
+  unfold ofModel
+  cases r.1 <;> rfl
+
+/-- **`CheckMultiProof`, translated from the source, is the model's `mpVerify`** (256-point domain,
+8 rounds): same decision, same transcript, an error return exactly where the model reports one. -/
+theorem checkMultiProof_eq (cfg : IpaCfg K G) (hN : cfg.N = 256) (hr : cfg.rounds = 8)
+    (ms : List G → List K → Option G) (hms : MsOk ms) (hbv : ∀ z, (bVector cfg z).length = cfg.srs.length)
+    (tr : Tr) (proof : MultiProof K G) (Cs : List G) (ys : List K) (zs : List Nat) :
+    Gen.Loops.checkMultiProof enc (bVector cfg) ms tr cfg.Q cfg.srs (cfg.rounds : Int)
+        proof.ipa.L proof.ipa.R proof.ipa.a proof.D Cs ys (zs.map (fun (z : Nat) => (z : Int)))
+      = ofModel (mpVerify enc cfg tr proof Cs ys zs) := by
+  unfold Gen.Loops.checkMultiProof mpVerify
+  simp only [List.length_map]
+  by_cases h1 : Cs.length = ys.length
+  swap
+  · have t1 : (((Cs.length : Nat) : Int) ≠ ((ys.length : Nat) : Int)) := by omega
+    have m1 : Cs.length ≠ ys.length := h1
+    rw [if_pos t1, if_pos m1]; rfl
+  have h1' : ¬ (((Cs.length : Nat) : Int) ≠ ((ys.length : Nat) : Int)) := by omega
+  have m1 : ¬ (Cs.length ≠ ys.length) := by simpa using h1
+  by_cases h2 : Cs.length = zs.length
+  swap
+  · have t2 : (((Cs.length : Nat) : Int) ≠ ((zs.length : Nat) : Int)) := by omega
+    have m2 : Cs.length ≠ zs.length := h2
+    rw [if_neg h1', if_pos t2, if_neg m1, if_pos m2]; rfl
+  have h2' : ¬ (((Cs.length : Nat) : Int) ≠ ((zs.length : Nat) : Int)) := by omega
+  have m2 : ¬ (Cs.length ≠ zs.length) := by simpa using h2
+  by_cases h3 : Cs.length = 0
+  · have t3 : (((Cs.length : Nat) : Int) = 0) := by omega
+    rw [if_neg h1', if_neg h2', if_pos t3, if_neg m1, if_neg m2, if_pos h3]; rfl
+  have t3 : ¬ (((Cs.length : Nat) : Int) = 0) := by omega
+  rw [if_neg h1', if_neg h2', if_neg t3, if_neg m1, if_neg m2, if_neg h3]
+  set n := Cs.length with hn
+  have hys : ys.length = n := by omega
+  have hzs : zs.length = n := by omega
+  have h256 : ((256 : Int)) = ((256 : Nat) : Int) := rfl
+  simp only [h256, forUp_zero, Int.toNat_natCast, hN]
+  rw [show Gen.Loops.mp_labelDomainSep = Label.multiproof from rfl, show Gen.Loops.mp_labelC = Label.C from rfl,
+    show Gen.Loops.mp_labelZ = Label.z from rfl, show Gen.Loops.mp_labelY = Label.y from rfl,
+    show Gen.Loops.mp_labelR = Label.r from rfl, show Gen.Loops.mp_labelD = Label.D from rfl,
+    show Gen.Loops.mp_labelT = Label.t from rfl, show Gen.Loops.mp_labelE = Label.E from rfl]
+  -- the statement as absorbed
+  have habs : (List.range n).foldl (fun (st : Tr) (k : Nat) =>
+        ((st.appendPoint enc (Loop.get Cs (k : Int) 0) Label.C).appendScalar enc
+          (Gen.Loops.domainToFr (Loop.get (zs.map (fun (z : Nat) => (z : Int))) (k : Int) 0)) Label.z).appendScalar enc
+            (Loop.get ys (k : Int) 0) Label.y) (tr.domainSep Label.multiproof)
+      = (List.zip Cs (List.zip ys zs)).foldl (fun (tr : Tr) (e : G × K × Nat) =>
+        ((tr.appendPoint enc e.1 Label.C).appendScalar enc ((e.2.2 : Nat) : K) Label.z).appendScalar enc e.2.1 Label.y)
+        (tr.domainSep Label.multiproof) := by
+    rw [zip3_eq_range_map Cs ys zs 0 0 0 n rfl hys hzs, List.foldl_map]
+    apply List.foldl_ext
+    intro acc k _
+    simp only [get_nat, getD_map_cast, domainToFr_eq]
+  rw [habs]
+  generalize (List.zip Cs (List.zip ys zs)).foldl _ (tr.domainSep Label.multiproof) = tr1
+  generalize Tr.challenge enc tr1 Label.r = rc
+  obtain ⟨r, tr2⟩ := rc
+  simp only
+  rw [powersOf_eq r n (by omega)]
+  generalize Tr.challenge enc (tr2.appendPoint enc proof.D Label.D) Label.t = tc
+  obtain ⟨t, tr3⟩ := tc
+  simp only
+  set pows := GoIpa.powersOf r n with hpows
+  have hpl : pows.length = n := by rw [hpows]; unfold GoIpa.powersOf; exact powersFrom_length r 1 n
+  -- grouped evaluations
+  have hge : (List.range n).foldl (fun (st : List K) (k : Nat) =>
+        Loop.set st (Loop.get (zs.map (fun (z : Nat) => (z : Int))) (k : Int) 0)
+          (Loop.get st (Loop.get (zs.map (fun (z : Nat) => (z : Int))) (k : Int) 0) 0 + Loop.get pows (k : Int) 0 * Loop.get ys (k : Int) 0))
+        (List.replicate 256 (0 : K))
+      = (List.zip pows (List.zip ys zs)).foldl (fun (ge : List K) (e : K × K × Nat) =>
+        ge.set e.2.2 (ge.getD e.2.2 0 + e.1 * e.2.1)) (List.replicate 256 (0 : K)) := by
+    rw [zip3_eq_range_map pows ys zs 0 0 0 n hpl hys hzs, List.foldl_map]
+    apply List.foldl_ext
+    intro acc k _
+    simp only [get_nat, getD_map_cast, set_nat]
+  rw [hge]
+  set ge := (List.zip pows (List.zip ys zs)).foldl (fun (ge : List K) (e : K × K × Nat) =>
+        ge.set e.2.2 (ge.getD e.2.2 0 + e.1 * e.2.1)) (List.replicate 256 (0 : K)) with hgedef
+  have hgel : ge.length = 256 := by
+    rw [hgedef, foldl_set_length (List.zip pows (List.zip ys zs)) (fun _ e => e.2.2) (fun ge e => ge.getD e.2.2 0 + e.1 * e.2.1)]
+    exact List.length_replicate
+  -- the inverse denominators
+  rw [foldl_pointwise 256 (0 : K) (fun i _ => t - ((i : Nat) : K)) _ _ List.length_replicate
+    (by
+      intro l i hi hl
+      simp only [set_nat, domainToFr_eq]
+      refine ⟨by simp [hl], ?_⟩
+      intro j _
+      rw [getD_set]
+      by_cases hji : j = i
+      · subst hji; simp [hl, hi]
+      · have : ¬ (i = j ∧ i < l.length) := fun hh => hji hh.1.symm
+        rw [if_neg this, if_neg hji])]
+  rw [batchInvert_eq]
+  set denInv := GoIpa.batchInvert ((List.range 256).map fun (i : Nat) => t - (i : K)) with hdi
+  have hdl : denInv.length = 256 := by rw [hdi, batchInvert_length]; simp
+  -- g₂(t)
+  have hg2 : (List.range 256).foldl (fun (st : K) (k : Nat) =>
+        if Loop.get ge (k : Int) 0 = 0 then st else st + Loop.get ge (k : Int) 0 * Loop.get denInv (k : Int) 0) 0
+      = (List.zip ge denInv).foldl (fun (acc : K) (e : K × K) => if e.1 = 0 then acc else acc + e.1 * e.2) 0 := by
+    have hz : List.zip ge denInv = (List.range 256).map (fun k => (ge.getD k 0, denInv.getD k 0)) := by
+      have := zipWith_eq_range_map Prod.mk ge denInv 0 0 (by rw [hgel, hdl])
+      rw [hgel] at this
+      rw [← this]; rfl
+    rw [hz, List.foldl_map]
+    apply List.foldl_ext
+    intro acc k _
+    simp only [get_nat]
+  rw [hg2]
+  -- the commitments and their scalars
+  have hcs : (List.range n).foldl (fun (st : List G × List K) (k : Nat) =>
+        (Loop.set st.1 (k : Int) (Loop.get Cs (k : Int) 0),
+         Loop.set st.2 (k : Int) (Loop.get pows (k : Int) 0 * Loop.get denInv (Loop.get (zs.map (fun (z : Nat) => (z : Int))) (k : Int) 0) 0)))
+        (List.replicate n (0 : G), List.replicate n (0 : K))
+      = (Cs, List.zipWith (fun (p : K) (z : Nat) => p * denInv.getD z 0) pows zs) := by
+    have := foldl_two_lists n (0 : G) (0 : K) (fun k => Cs.getD k 0) (fun k => pows.getD k 0 * denInv.getD (zs.getD k 0) 0)
+    simp only [get_nat, set_nat, getD_map_cast]
+    rw [this, ← eq_range_map Cs 0, zipWith_eq_range_map _ pows zs 0 0 (by rw [hpl, hzs]), hpl]
+  rw [hcs]
+  simp only
+  rw [hms, if_pos (by rw [List.length_zipWith, hpl, hzs, Nat.min_self])]
+  simp only
+  rw [checkIPAProof_eq enc cfg ms hms hr _ _ proof.ipa t _ (hbv t)]
+  exact ofModel_bind _
+
+/-- **End to end for C02:** the Go verifier, translated from the current source, returns what the
+*reference* verifier returns — for every proof, commitments, claimed values and domain indices
+`< 256`, honest or not (composition of `checkMultiProof_eq` with `C02.mpVerify_eq_spec`). -/
+theorem checkMultiProof_eq_spec (cfg : IpaCfg K G) (hN : cfg.N = 256) (hr : cfg.rounds = 8)
+    (hsrs : cfg.srs.length = 2 ^ cfg.rounds)
+    (ms : List G → List K → Option G) (hms : MsOk ms) (hbv : ∀ z, (bVector cfg z).length = cfg.srs.length)
+    (tr : Tr) (proof : MultiProof K G) (Cs : List G) (ys : List K) (zs : List Nat) (hz : ∀ z ∈ zs, z < 256) :
+    Gen.Loops.checkMultiProof enc (bVector cfg) ms tr cfg.Q cfg.srs (cfg.rounds : Int)
+        proof.ipa.L proof.ipa.R proof.ipa.a proof.D Cs ys (zs.map (fun (z : Nat) => (z : Int)))
+      = ofModel (C02.specMpVerify enc cfg tr proof Cs ys zs) := by
+  rw [checkMultiProof_eq enc cfg hN hr ms hms hbv,
+    C02.mpVerify_eq_spec enc cfg hsrs tr proof Cs ys zs (by rw [hN]; exact hz)]
 
 end GoIpa.Tie.Protocol
